@@ -45,6 +45,30 @@ a search that steps a local copy of the start date and probes `date - 1 day if b
 normaliser folded helpers and the folded shape is not decided, the fold obligations are retried on the tree as written
 (`Program(repo, normalise=False)`), and the attempt without UNDECIDED is the one reported.
 
+Round 3 additions.  op_table: conditional expressions in a dunder's return are return paths of their own; a path that
+builds the combinator from the left calendar's own operands (`[*self.operands, other]`, chain flattening) is refuted for
+`-` (the inner clamp is lost) and undecided for `+ * /`; `K(calendars=[..])` counts as `K([..])`; a return that calls a
+helper the rule cannot read is undecided, not refuted.  promotion: the helper may be a method, a module-level function or
+written in place (`other if type(other) not in _SCALAR_TYPES else FixedCalendar(other)`, module tuples resolved); each
+distinct helper is judged on its own.  fold: the operand list may be stored by an inherited constructor; a fold loop the
+combinator inherits (template method: `self._combine(acc, v)` / `self._finish(acc)` hooks, or `super().get_available_units`
+plus a clamp) is read with the hooks of the concrete class substituted; `acc = v if acc is None else acc OP v`; the
+loop-free spellings `[u for u in (c.get_available_units(date) for c in ops) if u is not None]` + sum / math.prod /
+functools.reduce (+ empty -> None, Sub clamp) and `next((u for u in .. if u is not None and u > 0), None)`; `|` with a
+result variable and break.  validation / units_nonnegative: guards are also collected from `super().m(..)` and module-level
+helpers, in the forms `not all(..)`, `min(X) < 0`, `max(X) > 6`, `set(X) - set(range(7))`, `None not in (start, end)`;
+"no guard found" is a refutation only when no call that receives the value was left unread (otherwise undecided); a
+value stored inside a table-building helper may be checked by the caller before the call; a table taken from
+`state | K.__helper(x)` is followed into the helper; a writer that only delegates (`self.set_units(units)`) is a site.
+dead_validator: checks written in place in __init__ / set_units count as sites.  search: when the function is not in
+the armed `while counter < max_days` shape, or the shape rule finds fault with it, the function is *evaluated as
+written* (c17_util.SearchSim: an ast walk over numbers, day offsets, timedeltas; private helpers entered) for max_days
+1..4, both directions and capacity on no / one / two adjacent / all days of the window, against the property sentence.
+A deviating input is reported as the counterexample (exit 1); no deviation proves the obligation only if every number
+written in the function is 0 or 1 (so that small horizons are representative), else the shape verdict stands.
+none_is_zero: a return path that answers from the calendar's internals without calling its get_available_units(date)
+is refuted.
+
 The decision procedures evaluate the (loop free) blocks over finite abstract domains (see c17_util): unit values by
 sign class {None, <0, 0, >0}, dates by their position against a validity interval, direction in {-1, +1}.
 
@@ -52,7 +76,8 @@ Not decided: float arithmetic; a divisor *calendar* that yields 0 on some date (
 property only speaks of the number zero); time-of-day comparisons against day-precision bounds (the code's `<` / `>`
 are taken as "inside their validity", bounds included); FuncCalendar / apply; that the unit fields are only written by
 methods of their own class (R1, C06 territory); merge-vs-replace and override order of DirectCalendar.set_units;
-the meaning of `max_days <= 0`; a search written as `for _ in range(max_days)` ends UNDECIDED (shape not armed).
+the meaning of `max_days <= 0`; a search with numbers other than 0 / 1 in it (`timedelta(hours=24)`) that is not in
+the armed shape ends UNDECIDED; chain flattening of `+ * /` (value preserving, not proved) ends UNDECIDED.
 
 Engine limitations worked around in rules/c17_util.py: `cfg.enclosing_fors` / `facts.guards_of` lose the loop binders
 of a `raise` (a raise cannot reach the loop header again) -> `fors_around` (syntactic); multi-statement validators are
@@ -759,6 +784,52 @@ def _functional(ctx, o, orr, osb, f, K, d):
     return True
 
 
+def _functional_or(ctx, o, f, K):
+    """`|` written as `next((u for u in (c.get_available_units(date) for c in self.F) if u is not None and u > 0), None)`
+    (also with the values collected in a local first).  False when not in that form (nothing reported)"""
+    prog = ctx.prog
+    date = f.params[1] if len(f.params) > 1 else None
+    rets = [n for n in walk_no_nested(f.node) if isinstance(n, ast.Return)]
+    if date is None or len(rets) != 1 or rets[0].value is None or any(isinstance(n, (ast.For, ast.While, ast.If)) for n in walk_no_nested(f.node)):
+        return False
+    ex = Expander(prog, f, ctx.typer)
+    v = ex.expand(rets[0].value)
+    m = match("next($g, None)", v) or match("next($g, $dflt)", v)
+    if not m or not isinstance(m['g'], ast.GeneratorExp) or len(m['g'].generators) != 1:
+        return False
+    if 'dflt' in m and not (isinstance(m['dflt'], ast.Constant) and m['dflt'].value is None):
+        o.refute(f, rets[0], rets[0], f"`|` without a positive operand yields `{src(m['dflt'])}`, expected None (no information)")
+        return True
+    g = m['g']
+    gen = g.generators[0]
+    if not isinstance(gen.target, ast.Name) or not _name(g.elt, gen.target.id):
+        return False
+    plain = ast.GeneratorExp(elt=g.elt, generators=[ast.comprehension(target=gen.target, iter=gen.iter, ifs=[], is_async=0)])
+    st = _operand_stream(plain, date)
+    if st is None or st[1] != 'all' or not gen.ifs:
+        return False
+    if not _field_iter(ctx, o, f, _Anchor(rets[0], st[0]), K):
+        return True
+    x = _e(gen.target.id)
+    cond = gen.ifs[0] if len(gen.ifs) == 1 else ast.BoolOp(op=ast.And(), values=list(gen.ifs))
+    ok = True
+    for sgn in SIGNS:
+        try:
+            t = Ev([(x, sgn, 'sign')]).truth(cond)
+        except U.Unknown as u:
+            o.undecided(f, rets[0], cond, f"`|` filter: {u.why}")
+            return True
+        except U.WouldRaise as w:
+            o.refute(f, rets[0], cond, f"`|` filter raises for an operand value that is {SIGN_NAME[sgn]}: {w.why}")
+            return True
+        if t != (sgn == 1):
+            o.refute(f, rets[0], cond, f"`|` {'takes' if t else 'skips'} an operand whose value is {SIGN_NAME[sgn]}: it must take the first *positive* operand")
+            ok = False
+    if ok:
+        o.site(f, rets[0], f"{K}: first operand with value > 0 (next over the operands in order), else None")
+    return True
+
+
 def _acc_name(pre, loop):
     inloop = set()
     for st in loop.body:
@@ -833,6 +904,10 @@ def _folds(ctx, table):
         g = f
         if sp is None:
             fh = _fold_helper(c2, f)
+            if fh is None and OPS[d] is None and f.cls == K:
+                ro2 = Rec()
+                if _functional_or(c2, ro2, f, K):
+                    return ro2, rr, rs
             if fh is None and OPS[d] is not None and f.cls == K:
                 ro2, rr2, rs2 = Rec(), Rec(), Rec()
                 if _functional(c2, ro2, rr2, rs2, f, K, d):
@@ -1572,6 +1647,9 @@ def _helper_table(ctx, f, outer, call, h):
     return out
 
 
+_local_depth = [0]
+
+
 def _field_stores(ctx, f, field, kind):
     """[_Store] for every store into self.<field> in f; scalar stores come as one 'pair' entry.  A table built by a
     same-class helper (`self.F = K.__build(..)`) is followed into the helper."""
@@ -1588,6 +1666,19 @@ def _field_stores(ctx, f, field, kind):
                 if en.kind == 'whole' and isinstance(en.expr, ast.Call):
                     h = U.helper_of(ctx.prog, f, en.expr) or _module_helper(ctx.prog, f, en.expr)
                     recs = _helper_table(ctx, f, stmt, en.expr, h) if h is not None else None
+                elif en.kind == 'whole' and isinstance(en.expr, ast.Name) and en.expr.id not in f.params and _local_depth[0] < 2:
+                    # a local table filled before it is stored into the field (`t = {}; for ..: t[k] = v; self.F = t`)
+                    L = en.expr.id
+                    _local_depth[0] += 1
+                    try:
+                        st = _stores_in(ctx, f, lambda x, L=L: isinstance(x, ast.Name) and x.id == L, 'mapping', '')
+                    finally:
+                        _local_depth[0] -= 1
+                    cfg = cfg_of(f)
+                    sn = cfg.node_of(stmt)
+                    if st and all(e2 is not None and not any(e.kind == 'whole' for e in e2) for _, e2 in st) and sn is not None and \
+                            all(cfg.node_of(s2) is not None and cfg.can_reach(cfg.node_of(s2), sn) for s2, _ in st):
+                        recs = [_Store(f, s2, e2, {}, f, s2) for s2, e2 in st]
                 if recs:
                     followed += recs
                 else:
